@@ -147,6 +147,14 @@ func init() {
 		"internal/race.Read":                         extNop,
 		"internal/race.Write":                        extNop,
 
+		// ---- snapd logger: silent ----
+		"github.com/snapcore/snapd/logger.Debugf":  extNop,
+		"github.com/snapcore/snapd/logger.Noticef": extNop,
+		"github.com/snapcore/snapd/logger.Debug":   extNop,
+		"github.com/snapcore/snapd/logger.Notice":  extNop,
+		"github.com/snapcore/snapd/logger.Trace":   extNop,
+		"github.com/snapcore/snapd/logger.NoGuardDebugf": extNop,
+
 		// ---- os / environment (deterministic, empty) ----
 		"os.Getenv":    func(fr *frame, a []value) value { return fr.i.getenv(a[0]) },
 		"os.LookupEnv": func(fr *frame, a []value) value { s := fr.i.getenv(a[0]); return tuple{s, s != ""} },
